@@ -366,6 +366,86 @@ is_parameter_reduced = Contract(
 ALL += [is_parameter_reduced]
 
 
+def _listed(S, a):
+    ins = S.some(a.func.mapspec).inputs
+    return S.exists(0, S.len(ins), lambda i: S.eq(ins[i].name, a.name))
+
+
+def _first_spec(S, a, then):
+    """`then(spec)` for the first input spec of the function's MapSpec with the given name."""
+    ins = S.some(a.func.mapspec).inputs
+    return S.exists(0, S.len(ins), lambda i: S.and_(
+        S.eq(ins[i].name, a.name), lambda: S.forall(0, i, lambda j: S.not_(S.eq(ins[j].name, a.name))), lambda: then(ins[i])))
+
+
+is_parameter_partially_reduced = Contract(
+    "pipefunc/map/_prepare.py::_is_parameter_partially_reduced_by_function",
+    params={"func": PipeFuncParamsView, "name": TStr}, returns=TBool,
+    ensures=lambda S, a, r, post: {
+        "the MapSpec lists the parameter and takes at least one of its axes whole (':')": r == S.and_(
+            S.not_(S.is_none(a.func.mapspec)), lambda: _listed(S, a), lambda: _first_spec(S, a, lambda sp: S.exists(
+                0, S.len(sp.axes), lambda p: S.is_none(sp.axes[p]))))},
+)
+ALL += [is_parameter_partially_reduced]
+
+
+# _get_partially_reduced_axes: the names of the axes a function takes whole through ':' (these may not be fixed)
+DAxes = TDict(TStr, SS)
+
+
+def _first_idx(S, a):
+    """index of the first input spec with the given name (spec function; defined when the name is listed)."""
+    if not S.symbolic:
+        return next(i for i, x in enumerate(a.func.mapspec.inputs) if x.name == a.name)
+    return S.uf("spec:first-input-named", TInt, a.func, a.name)
+
+
+def _pra_setup(S, a):
+    ins = S.some(a.func.mapspec).inputs
+    i0 = _first_idx(S, a)
+    sp_axes = ins[i0].axes
+    has = S.has(a.axes, a.name)
+    m = S.ite(has, lambda: S.min(S.len(a.axes[a.name]), S.len(sp_axes)), 0)
+    M, ax = S.defarray("spec:whole-axes", [a.func, a.name, a.axes] if S.symbolic else [],
+                       lambda p: S.and_(0 <= p, p < m, lambda: S.is_none(sp_axes[p])), m)
+    axioms = [ax]
+    if S.symbolic:
+        axioms.append(S.implies(_listed(S, a), lambda: S.and_(
+            0 <= i0, i0 < S.len(ins), lambda: S.eq(ins[i0].name, a.name),
+            lambda: S.forall(0, i0, lambda j: S.not_(S.eq(ins[j].name, a.name))))))
+    return m, M, axioms
+
+
+def _pra_ensures(S, a, r, post):
+    m, M, _ = _pra_setup(S, a)
+    return {"the named axes of the array at the positions the function takes whole, in order (none when the array is "
+            "nowhere indexed by name)": S.and_(
+                S.len(r) == S.cnt(M, m),
+                lambda: S.forall(0, m, lambda p: S.implies(M[p], lambda: S.eq(r[S.cnt(M, p)], a.axes[a.name][p]))))}
+
+
+get_partially_reduced_axes = Contract(
+    "pipefunc/map/_prepare.py::_get_partially_reduced_axes",
+    params={"func": PipeFuncParamsView, "name": TStr, "axes": DAxes}, returns=SS,
+    requires=lambda S, a: {"the function has a MapSpec that lists the parameter": S.and_(
+        S.not_(S.is_none(a.func.mapspec)), lambda: _listed(S, a))},
+    axioms=lambda S, a: _pra_setup(S, a)[2],
+    ensures=_pra_ensures,
+)
+ALL += [get_partially_reduced_axes]
+
+
+def pra_gen(rng, tier):
+    from types import SimpleNamespace
+    from pipefunc.map._mapspec import MapSpec
+    specs = ["x[i, :] -> y[i]", "x[:, j], z[j] -> y[j]", "x[:, :, k] -> y[k]", "x[i, j] -> y[i, j]", "x[:] , z[i] -> y[i]",
+             "z[i], x[i, :] -> y[i]"]
+    for sp in specs:
+        for name in ("x", "z"):
+            for axes in ({}, {"x": ("a", "b")}, {"x": ("a", "b", "c"), "z": ("i",)}, {"x": ("a",)}, {"z": ("q",)}):
+                yield {"func": SimpleNamespace(parameters=("x", "z"), mapspec=MapSpec.from_string(sp)), "name": name, "axes": axes}
+
+
 def ipr_gen(rng, tier):
     from types import SimpleNamespace
     from pipefunc.map._mapspec import MapSpec
